@@ -172,7 +172,7 @@ def _floor(x):
 
 # ---- full WellBores.Calculate -----------------------------------------------------------------------------
 FULL_SPEC = [('wellbores.prodwellflowrate', 1, 500), ('wellbores.prodwelldiam', 0.0254, 0.762), ('wellbores.injwelldiam', 0.0254, 0.762),
-             ('wellbores.PI', 0.01, 10000), ('wellbores.II', 0.01, 10000), ('wellbores.impedance', 0.1, 10000),
+             ('wellbores.PI', 0.01, 10000), ('wellbores.II', 0.01, 10000), ('wellbores.impedance', 1e-4, 10000),
              ('surfaceplant.pump_efficiency', 0.1, 1), ('reserv.waterloss', 0, 0.99), ('wellbores.ppwellhead', 0, 10000),
              ('wellbores.overpressure_percentage', 100, 1000), ('wellbores.overpressure_depletion_rate', 0.1, 100),
              ('wellbores.injection_reservoir_inflation_rate', 0, 10000), ('surfaceplant.plant_outlet_pressure', 0.01, 15000)]
@@ -257,6 +257,10 @@ def run_full(unit):
             import random
             rnd = random.Random(15)
             yield {n: (ranges[n][0] + ranges[n][1]) / 2 for n in names}
+            # corners: a reservoir offering (almost) no resistance, where buoyancy outweighs friction at every time step
+            yield {n: (ranges[n][0] if n in ('wellbores.impedance',) else (ranges[n][0] + ranges[n][1]) / 2) for n in names}
+            yield {n: (ranges[n][0] if n in ('wellbores.impedance', 'wellbores.prodwellflowrate') else (ranges[n][0] + ranges[n][1]) / 2) for n in names}
+            yield {n: (ranges[n][1] if n in ('wellbores.PI', 'wellbores.II', 'wellbores.prodwelldiam', 'wellbores.injwelldiam') else ranges[n][0]) for n in names}
             for _ in range(6):
                 yield {n: ranges[n][0] + (ranges[n][1] - ranges[n][0]) * rnd.random() for n in names}
         k = 0
